@@ -109,6 +109,7 @@ type TD struct {
 	// shadow of what the driver itself did (used only to decide what to wait for)
 	ansKey    int64
 	answered  map[int]bool
+	early     map[string]map[int]bool // collection event -> game indexes whose answer was accepted before the request was published
 	gateParts map[string]bool
 	gateSig   map[string]bool
 	gateDone  bool
@@ -174,7 +175,31 @@ func init() {
 		case "game.handled":
 			atomic.AddInt64(&c[1], 1)
 		}
+		// a scenario may park the goroutine that has just produced a collection request (g.gs already is the new state,
+		// the updater has not been handed it yet): point name "game.queue:<event>"
+		if point == "game.queue" {
+			if d, _ := curTD.Load().(*TD); d != nil && !d.isDead() && d.hasGameGate() {
+				if gm := d.te.GetGame(); gm != nil && interface{}(gm) == g {
+					if gs := gm.GetGameState(); gs != nil {
+						d.hook("game.queue:" + gs.Status.CurrentEvent)
+					}
+				}
+			}
+		}
 	})
+}
+
+var curTD atomic.Value
+
+func (d *TD) hasGameGate() bool {
+	d.hmu.Lock()
+	defer d.hmu.Unlock()
+	for k := range d.gateOps {
+		if strings.HasPrefix(k, "game.queue:") {
+			return true
+		}
+	}
+	return false
 }
 
 var recordedHooks = map[string]bool{"continue.reset": true, "continue.fire": true, "continue.setup": true, "gate.fire": true,
@@ -184,6 +209,7 @@ func NewTD(rec *Recorder, sc *Scenario) *TD {
 	d := &TD{rec: rec, sc: sc, rng: rand.New(rand.NewSource(sc.Seed)), counts: map[string]int{}, gateOps: map[string][]Op{},
 		answered: map[int]bool{}, gateParts: map[string]bool{}, gateSig: map[string]bool{}, gateDone: true}
 	d.spy = NewSpy()
+	curTD.Store(d)
 	d.spy.OnCall = func(kind string, ord int, ok bool, in, out string, gs *pokerface.GameState, o *pokerface.GameOptions, amt int64) {
 		if d.isDead() {
 			return
@@ -904,6 +930,14 @@ func (d *TD) resolveWho(who string) string {
 			}
 			return d.idOfGameIdx(k)
 		}
+	case "bb", "sb", "dealer":
+		if gs != nil {
+			for _, p := range gs.Players {
+				if has(p.Positions, who) {
+					return d.idOfGameIdx(p.Idx)
+				}
+			}
+		}
 	case "out":
 		for _, p := range t.State.PlayerStates {
 			if !p.IsParticipated {
@@ -945,6 +979,16 @@ func (d *TD) act(id, kind string, amt int64, who string) string {
 		err := fn()
 		if err == nil && (kind == "ready" || kind == "pay") && gi >= 0 {
 			d.hmu.Lock()
+			if strings.HasPrefix(d.parkedAt, "game.queue:") {
+				ev := strings.SplitN(strings.TrimPrefix(d.parkedAt, "game.queue:"), "#", 2)[0]
+				if d.early == nil {
+					d.early = map[string]map[int]bool{}
+				}
+				if d.early[ev] == nil {
+					d.early[ev] = map[int]bool{}
+				}
+				d.early[ev][gi] = true
+			}
 			if d.ansKey != key {
 				d.ansKey = key
 				d.answered = map[int]bool{}
@@ -1196,8 +1240,23 @@ func (d *TD) playHand(plan *HandPlan) string {
 			if plan.WithholdAns == phase && len(asked) > 0 {
 				held = asked[len(asked)-1]
 			}
+			d.hmu.Lock()
+			earlier := d.early[gs.Status.CurrentEvent]
+			delete(d.early, gs.Status.CurrentEvent)
+			d.hmu.Unlock()
 			for _, gi := range asked {
 				if gi == held {
+					continue
+				}
+				if earlier[gi] {
+					// the engine accepted this player's answer before it published the request: a client does not repeat it
+					d.hmu.Lock()
+					if d.ansKey != gs.UpdatedAt {
+						d.ansKey = gs.UpdatedAt
+						d.answered = map[int]bool{}
+					}
+					d.answered[gi] = true
+					d.hmu.Unlock()
 					continue
 				}
 				id := d.idOfGameIdx(gi)
